@@ -91,7 +91,13 @@ def impl_pipeline(case):
     from cobald.daemon.core.config import PipelineTranslator
     mod = CTX["mod"]
     del mod.LOG[:]
-    structure = {"pipeline": [to_py(e) for e in case["elems"]]}
+    from cobald.interfaces import Partial
+    by_fid = {0: mod.f0, 3: mod.ns.inner.g, 8: mod.nosig}
+
+    def elem(e):
+        # an element that the YAML layer has already turned into a template (`!Tag` / `.s()`)
+        return Partial(by_fid[e["partial"]], __leaf__=False) if "partial" in e else to_py(e)
+    structure = {"pipeline": [elem(e) for e in case["elems"]]}
     try:
         res = PipelineTranslator().translate_hierarchy(structure)
         out = {"ok": canon(res, mod.Obj)}
@@ -110,8 +116,13 @@ def oracle_pipeline(case, o):
         prev, items = None, []
         for i in reversed(range(len(case["elems"]))):
             e = case["elems"][i]
-            extra = [] if prev is None else [["target", prev]]
-            prev = ref_eval(e, "[%d]" % i, log, extra)
+            if "partial" in e:
+                # `template >> successor`: the constructor is called with the successor as its target
+                log.append(["[%d]" % i, e["partial"], [prev], []])
+                prev = {"obj": len(log) - 1}
+            else:
+                extra = [] if prev is None else [["target", prev]]
+                prev = ref_eval(e, "[%d]" % i, log, extra)
             items.append(prev)
         exp = {"ok": {"l": list(reversed(items))}}
     except Fail as f:
@@ -133,6 +144,10 @@ def gen_pipeline(rng):
         m.append(["__type__", {"s": rng.choice(ok)}])
         rng.shuffle(m)
         elems.append({"m": m})
+    # already constructed templates between the encoded elements (never last: the last one is the pool)
+    for i in range(len(elems) - 1):
+        if rng.random() < 0.35:
+            elems[i] = {"partial": rng.choice([0, 3])}
     return {"mode": "pipeline", "elems": elems}
 
 
@@ -265,7 +280,7 @@ def oracle(case, o):
 
 def nontrivial(case, o):
     if case.get("mode") == "pipeline":
-        return sum(count_types(e) for e in case["elems"]) >= 2
+        return sum(count_types(e) for e in case["elems"] if "partial" not in e) >= 2
     return count_types(case["cfg"]) >= 2
 
 
